@@ -457,7 +457,7 @@ class FnText:
         expr = self.text[toks[pos_in + 1].a:toks[brace - 1].b]
         itn = itname or ("verif_it%d" % ordinal)
         head = "let mut %s = (%s).into_iter();\n loop " % (itn, expr)
-        first = "{ let %s = match %s.next() { Some(verif_x) => verif_x, None => break };" % (pat, itn)
+        first = "{ /*verif:body%d*/ let %s = match %s.next() { Some(verif_x) => verif_x, None => break };" % (ordinal, pat, itn)
         a, b = toks[kw].a, toks[brace].b
         self.text = self.text[:a] + head + first + self.text[b:]
         self._scan()
@@ -510,6 +510,29 @@ class FnText:
             if hit is None:
                 break
             self.text = self.text[:hit[0]] + self.text[hit[1]:]
+            self._scan()
+            n += 1
+        return n
+
+    def replace_macro_calls(self, path_regex, repl):
+        """replace every expression `<path>!( ... )` whose path matches by `repl` (e.g. format!(..) -> verif_format()) -- rule R-format"""
+        n = 0
+        while True:
+            toks = self.toks
+            hit = None
+            for i in range(self.it.open + 1, self.it.close):
+                if toks[i].k == "p" and toks[i].s == "!" and toks[i + 1].s in _OPEN and toks[i - 1].k == "id":
+                    j = i - 1
+                    while j - 2 > self.it.open and toks[j - 1].s == "::" and toks[j - 2].k == "id":
+                        j -= 2
+                    path = self.text[toks[j].a:toks[i].a]
+                    if re.fullmatch(path_regex, norm(path)):
+                        c = match_close(toks, i + 1)
+                        hit = (toks[j].a, toks[c].b)
+                        break
+            if hit is None:
+                break
+            self.text = self.text[:hit[0]] + repl + self.text[hit[1]:]
             self._scan()
             n += 1
         return n
